@@ -39,7 +39,7 @@ def main(argv=None) -> int:
         ap.add_argument("id")
         ap.add_argument("--tier", default=os.environ.get("VERIF_TIER", "quick"), choices=["quick", "thorough"])
         ap.add_argument("--only", default=None)
-        ap.add_argument("--jobs", type=int, default=None)
+        ap.add_argument("--jobs", type=int, default=int(os.environ.get("SYMX_JOBS", "0")) or None)
         a = ap.parse_args(argv)
         seed = int(os.environ.get("VERIF_SEED", "0") or 0)
         from .runner import run_check
